@@ -132,6 +132,22 @@ def make_value(vkind, gen):
     raise ValueError(vkind)
 
 
+CTOR_ORDER = {"pos": ["num_visible", "num_hidden", "gpu", "module"],
+              "cplx": ["num_visible", "num_hidden", "unitary_dict", "gpu", "module"],
+              "dens": ["num_visible", "num_hidden", "num_aux", "unitary_dict", "gpu", "module"]}
+CTOR_DEFAULT = {"num_hidden": None, "num_aux": None, "unitary_dict": None, "module": None}
+
+
+def call_ctor(kind, kw, form=None):
+    """the constructor call in the form the caller writes it: all keywords (default), or (form == "pos") every argument up to the last
+    one given passed POSITIONALLY in the documented order (num_visible, num_hidden[, num_aux][, unitary_dict], gpu, module)"""
+    if form != "pos":
+        return KINDS[kind](**kw)
+    names = CTOR_ORDER[kind]
+    last = max(i for i, nm in enumerate(names) if nm in kw)
+    return KINDS[kind](*[kw[nm] if nm in kw else CTOR_DEFAULT[nm] for nm in names[: last + 1]])
+
+
 class Real:
     """the real objects of one history"""
 
@@ -146,6 +162,8 @@ class Real:
         self.modules = {}
         self.metas = {}
         self.savers = {}
+        self.loc = {}      # history file number -> (physical file, start position) when it is not (file<p>.pt, 0)
+        self.last_write = None  # what the last save through a file object did to the bytes in front of its start position
         self.uds = {}      # caller-owned unitary dictionaries (the SAME object may be handed to several constructors)
         self.ud_snaps = {}  # udslot -> deep copy taken when the caller created it
         self.last_ref = None  # reference weights of the last initialising op: [[tensor per weight matrix] per network]
@@ -157,6 +175,62 @@ class Real:
 
     def path(self, p):
         return os.path.join(self.tmp, f"file{p}.pt")
+
+    # ------------------------------------------------------------ locations: a "file" of the history is (physical file, start position)
+    # `location` of save / load / autoload is "str or file": an open file object stands for the data that starts at its CURRENT position
+    # (a state written after a header the caller wrote first, or the k-th checkpoint of a stream of checkpoints). The history's file number p
+    # is such a location; the model (path -> snapshot) does not care which form it has.
+    def stream_path(self, s):
+        return os.path.join(self.tmp, f"stream{s}.bin")
+
+    def where(self, p):
+        """(physical file, start position) of the history's file p"""
+        return self.loc.get(p, (self.path(p), 0, None))[:2]
+
+    def file_exists(self, p):
+        return os.path.exists(self.where(p)[0])
+
+    def is_tail(self, p):
+        """nothing follows the data of file p in its physical file.  torch.load finds a zip archive's directory from the END of the file
+        object it is given, so a checkpoint that is followed by further data (a later checkpoint of the same stream) cannot be read back by
+        the installed torch at all - whatever the library does ("values loadable by the installed torch"): only the LAST checkpoint of a
+        stream is a location `load` / `autoload` can be asked to read."""
+        phys, start, end = self.loc.get(p, (self.path(p), 0, None))
+        return end is None or (os.path.exists(phys) and os.path.getsize(phys) == end)
+
+    def target_of(self, op):
+        """the physical file a save operation is going to write"""
+        if op["t"] == "save" and op.get("fobj") and op.get("stream") is not None:
+            return self.stream_path(op["stream"])
+        return self.path(op["path"])
+
+    def must_be_fileobj(self, p):
+        """a location that is not the start of a file of its own can only be handed over as an open file object"""
+        phys, off = self.where(p)
+        return off != 0 or phys != self.path(p)
+
+    def open_location(self, p, io_kind=None):
+        """an open binary file object positioned where file p starts: a real file, or (io_kind == "bytes") an io.BytesIO holding the same bytes"""
+        import io
+
+        phys, off = self.where(p)
+        fh = io.BytesIO(open(phys, "rb").read()) if io_kind == "bytes" else open(phys, "rb")
+        fh.seek(off)
+        return fh
+
+    def read_file(self, p):
+        """the harness's own reading of the history's file p (whatever the form of its location): exactly the bytes the save wrote"""
+        import io
+
+        phys, start, end = self.loc.get(p, (self.path(p), 0, None))
+        with open(phys, "rb") as fh:
+            data = fh.read()
+        return torch.load(io.BytesIO(data[start:end]), weights_only=False)
+
+    @staticmethod
+    def header_bytes(n):
+        """what a caller might write in front of a checkpoint: n bytes, not a pickle / zip prefix"""
+        return (b"#QV-RUN-HEADER\n" * (n // 15 + 1))[:n]
 
     # ------------------------------------------------------------ observation
     def _tid(self, p):
@@ -198,9 +272,9 @@ class Real:
         for s in sorted(self.metas):
             w["metas"][str(s)] = {"entries": self.obs_dict(self.metas[s])}
         for p in range(6):
-            if os.path.exists(self.path(p)):
+            if self.file_exists(p):
                 try:
-                    f = torch.load(self.path(p), weights_only=False)
+                    f = self.read_file(p)
                 except (EOFError, RuntimeError, pickle.UnpicklingError, ValueError) as e:
                     # a file that no longer holds a checkpoint (e.g. truncated by a refused save) is a state of the world
                     # the model cannot be in: report it as the file's content so that the comparison shows it
@@ -309,6 +383,54 @@ class Real:
         bases[0, :] = "Z"  # at least one reference-basis row (z_samples must not be empty)
         return data, bases
 
+    def save_to_fileobj(self, op, md):
+        """`location` given as an open (binary) file object instead of a path (neural_state.py:203-204 "str or file"):
+        * plain: a fresh file, the state starts at position 0;
+        * op["hdr"] = n: the caller first writes an n-byte header of his own, then saves the state into the same open file;
+        * op["stream"] = s: the caller appends the state to the checkpoint stream s (a file that already holds earlier checkpoints of this or
+          other models);
+        * op["io"] == "bytes": the file object is an io.BytesIO (whose content the caller then writes to the physical file).
+        The history's file op["path"] then is (that physical file, the position the state starts at)."""
+        import io
+
+        p = op["path"]
+        st = self.models[op["slot"]]
+        if op.get("stream") is not None:
+            phys = self.stream_path(op["stream"])
+            prefix = open(phys, "rb").read() if os.path.exists(phys) else b""
+            target, replace = phys, False
+        else:
+            phys = self.path(p)
+            prefix = self.header_bytes(int(op.get("hdr") or 0))
+            target, replace = phys + ".part", True
+        start = len(prefix)
+        try:
+            if op.get("io") == "bytes":
+                fh = io.BytesIO()
+                fh.write(prefix)
+                st.save(fh, md)
+                data = fh.getvalue()
+                with open(target, "wb") as out:
+                    out.write(data)
+            else:
+                if replace or not os.path.exists(target):
+                    with open(target, "wb") as out:
+                        out.write(prefix)
+                with open(target, "r+b") as fh:
+                    fh.seek(start)
+                    st.save(fh, md)
+                data = open(target, "rb").read()
+            # what the save did to the bytes in front of the position it was given (the caller's header / the earlier checkpoints)
+            self.last_write = {"start": start, "prefix_intact": data[:start] == prefix, "grew": len(data) > start}
+            if replace:
+                os.replace(target, phys)  # the caller's file appears only if save returned
+            self.loc[p] = (phys, start, len(data))
+            if self.loc[p][:2] == (self.path(p), 0):
+                del self.loc[p]
+        finally:
+            if replace and os.path.exists(target):
+                os.remove(target)
+
     # ------------------------------------------------------------ operations
     def apply(self, op):
         """execute one planned operation on the real objects.
@@ -329,7 +451,7 @@ class Real:
                 m["rand"] = [[] for _ in NETS[op["kind"]]]
                 built = None
                 try:
-                    st = KINDS[op["kind"]](**kw)
+                    st = call_ctor(op["kind"], kw, op.get("form"))
                     self.models[op["slot"]] = st
                     built = st
                 finally:
@@ -370,10 +492,18 @@ class Real:
             elif t == "constructFrom":
                 ud, ents = self.make_ud(op.get("ud"))
                 m["ud"] = ents
-                kw = {"num_visible": 7, "module": self.modules[op["mslot"]], "gpu": False}
+                # the sizes the caller passes ALONGSIDE the module (documented as taken from the module instead): `num_visible` is a required
+                # argument (op["nv"], 7 when the plan does not say), `num_hidden` / `num_aux` are passed only when the plan has the key
+                # (None = the explicit default, 0, the module's own size, or any other number)
+                kw = {"num_visible": op.get("nv", 7), "module": self.modules[op["mslot"]], "gpu": False}
+                m["nv"] = kw["num_visible"]
+                if "nh" in op:
+                    kw["num_hidden"] = op["nh"]
+                if "na" in op and op["kind"] == "dens":
+                    kw["num_aux"] = op["na"]
                 if op["kind"] != "pos":
                     kw["unitary_dict"] = ud
-                st = KINDS[op["kind"]](**kw)
+                st = call_ctor(op["kind"], kw, op.get("form"))
                 self.models[op["slot"]] = st
             elif t == "write":
                 net = getattr(self.models[op["slot"]], op["net"])
@@ -427,17 +557,12 @@ class Real:
                 self.metas[op["mdslot"]] = d
             elif t == "save":
                 md = None if op["md"] is None else self.metas[op["md"]]
-                if op.get("fobj"):  # `location` given as an open (binary) file object instead of a path (neural_state.py:203-204 "str or file")
-                    tmp_path = self.path(op["path"]) + ".part"
-                    try:
-                        with open(tmp_path, "wb") as fh:
-                            self.models[op["slot"]].save(fh, md)
-                        os.replace(tmp_path, self.path(op["path"]))  # the caller's file appears only if save returned
-                    finally:
-                        if os.path.exists(tmp_path):
-                            os.remove(tmp_path)
+                self.last_write = None
+                if op.get("fobj"):
+                    self.save_to_fileobj(op, md)
                 else:
                     self.models[op["slot"]].save(self.path(op["path"]), md)
+                    self.loc.pop(op["path"], None)
             elif t == "saverSave":
                 # ModelSaver is driven through its PUBLIC interface only: constructor + the callback event `on_epoch_end(nn_state, epoch)`
                 # with a period that fires; the file it writes is `folder_path / file_name.format(epoch)` (documented contract), chosen
@@ -456,16 +581,17 @@ class Real:
                 else:
                     saver = mk(None)
                 saver.on_epoch_end(self.models[op["slot"]], op["path"])
+                self.loc.pop(op["path"], None)   # ModelSaver writes to a path: the history's file is now that file, from its start
             elif t == "load":
-                if op.get("fobj"):
-                    with open(self.path(op["path"]), "rb") as fh:
+                if op.get("fobj") or self.must_be_fileobj(op["path"]):
+                    with self.open_location(op["path"], op.get("io")) as fh:
                         self.models[op["slot"]].load(fh)
                 else:
                     self.models[op["slot"]].load(self.path(op["path"]))
             elif t == "autoload":
                 m["rand"] = []
-                if op.get("fobj"):
-                    with open(self.path(op["path"]), "rb") as fh:
+                if op.get("fobj") or self.must_be_fileobj(op["path"]):
+                    with self.open_location(op["path"], op.get("io")) as fh:
                         st = KINDS[op["kind"]].autoload(fh, gpu=False)
                 else:
                     st = KINDS[op["kind"]].autoload(self.path(op["path"]), gpu=False)
@@ -583,9 +709,11 @@ def admissible(real, op):
     # makes the file's "unitary_dict" entry an arbitrary user value.  Such saves, loads of the file and the autoload of the SAME state
     # type (PositiveWaveFunction.autoload never reads the entry) are executed; only handing that user value to the constructor of a
     # state type that has a unitary dictionary (ComplexWaveFunction / DensityMatrix .autoload) is outside the modelled domain.
-    if t == "autoload" and op["kind"] != "pos" and os.path.exists(real.path(op["path"])):
+    if t in ("load", "autoload") and real.file_exists(op["path"]) and not real.is_tail(op["path"]):
+        return False   # a checkpoint followed by later checkpoints of its stream: not readable by torch.load itself (see Real.is_tail)
+    if t == "autoload" and op["kind"] != "pos" and real.file_exists(op["path"]):
         try:
-            f = torch.load(real.path(op["path"]), weights_only=False)
+            f = real.read_file(op["path"])
         except Exception:  # unreadable files are handled (and compared) by the operation itself
             f = {}
         u = f.get("unitary_dict") if isinstance(f, dict) else None
